@@ -779,21 +779,15 @@ fn weak_key_histories(ctx: &mut Ctx) {
     ctx.extra.insert("weak_key_pairs".into(), json!({"literal_length": len, "pairs_per_weak_key": by_hash}));
 }
 
-/// H1-s: operands that are *different* but equal under a normalisation somebody might key a memo
-/// on (letter case, surrounding blanks, the string form, the double they denote, a prefix, a suffix,
-/// the length), and the *same* operand through every route by which a value is converted (a memo
-/// shared by two conversions answers the second with the result of the first). Each family member is
-/// driven through all routes back to back, in two orders, then the members alternate route by
-/// route; every call is judged against the model (an earlier call may already have left
-/// something behind, so "the first result" would not be a safe reference here).
-/// The checks of the value properties run the same histories and judge the calls of *their*
-/// operators (`judged_ops`; empty = all): the other routes are the history in which the judged
-/// calls happen - a property that holds "for any two values" holds whatever was evaluated before.
-pub fn semantic_key_histories(ctx: &mut Ctx, monitor: &str, judged_ops: &[&str]) {
+pub type Route = Box<dyn Fn(&Value) -> (Value, Value) + Send + Sync>;
+
+/// The operand families and conversion routes of the semantic-key histories (also the material of
+/// the cold-start lane).
+pub fn semantic_material() -> (Vec<(&'static str, Vec<Value>)>, Vec<Route>) {
     let s = |x: &str| Value::String(x.to_string());
     let n = |x: &str| -> Value { serde_json::from_str(x).unwrap() };
     let long_a: String = "1234567890".repeat(7);
-    let mut fam: Vec<(&str, Vec<Value>)> = vec![
+    let fam: Vec<(&'static str, Vec<Value>)> = vec![
         ("case", vec![s("Infinity"), s("INFINITY"), s("infinity"), s("iNFINITY")]),
         ("case", vec![s("-Infinity"), s("-INFINITY"), s("-infinity")]),
         ("case", vec![s("0x1f"), s("0X1F"), s("0x1F"), s("0X1f")]),
@@ -805,6 +799,7 @@ pub fn semantic_key_histories(ctx: &mut Ctx, monitor: &str, judged_ops: &[&str])
         ("blanks", vec![s("12"), s(" 12"), s("12 "), s(" 12 "), s("1 2"), s("\t12\n")]),
         ("blanks", vec![s("12px"), s("12 px"), s(" 12px"), s("12"), n("12")]),
         ("blanks", vec![s(""), s(" "), s("  "), s("\u{feff}"), s("\u{a0}")]),
+        ("blanks-high", vec![s("\u{feff}12"), s("12\u{3000}"), s("\u{2003}12\u{a0}"), s("\u{1680}7\u{205f}"), s("\u{2028}2\u{2029}"), s("\u{feff}\u{3000}0x10\u{202f}"), s("\u{200b}12"), s("12")]),
         ("blanks", vec![s("a b"), s("ab"), s(" ab"), s("a  b")]),
         ("string-form", vec![n("0"), s("0"), n("[0]"), n("[[0]]"), n("0.0"), n("-0.0"), s("-0")]),
         ("string-form", vec![json!(false), s("false"), n("[false]"), json!(null), s("null"), n("[null]"), s("")]),
@@ -827,10 +822,6 @@ pub fn semantic_key_histories(ctx: &mut Ctx, monitor: &str, judged_ops: &[&str])
         ("middle", vec![s(&format!("{}5{}", long_a, long_a)), s(&format!("{}6{}", long_a, long_a)), s(&format!("{}.{}", long_a, long_a))]),
         ("prefix", vec![s("a.b.c"), s("a.b.d"), s("a.b"), s("a.b.c.d"), s("a\\.b.c")]),
     ];
-    // every family in every shard (they are cheap); the starting point differs per shard
-    let rot = (ctx.shard as usize) % fam.len();
-    fam.rotate_left(rot);
-    type Route = Box<dyn Fn(&Value) -> (Value, Value)>;
     let routes: Vec<Route> = vec![
         Box::new(|v| (json!({"+": [v]}), Value::Null)),
         Box::new(|v| (json!({"*": [v, 1]}), Value::Null)),
@@ -886,6 +877,24 @@ pub fn semantic_key_histories(ctx: &mut Ctx, monitor: &str, judged_ops: &[&str])
         Box::new(|v| (json!({"some": [[0, v, {"/": [1]}], {"===": [{"var": ""}, "never"]}]}), Value::Null)),
         Box::new(|v| (json!({"substr": [{"cat": [v]}, {"+": ["x"]}]}), Value::Null)),
     ];
+    (fam, routes)
+}
+
+/// H1-s: operands that are *different* but equal under a normalisation somebody might key a memo
+/// on (letter case, surrounding blanks, the string form, the double they denote, a prefix, a suffix,
+/// the length), and the *same* operand through every route by which a value is converted (a memo
+/// shared by two conversions answers the second with the result of the first). Each family member is
+/// driven through all routes back to back, in two orders, then the members alternate route by
+/// route; every call is judged against the model (an earlier call may already have left
+/// something behind, so "the first result" would not be a safe reference here).
+/// The checks of the value properties run the same histories and judge the calls of *their*
+/// operators (`judged_ops`; empty = all): the other routes are the history in which the judged
+/// calls happen - a property that holds "for any two values" holds whatever was evaluated before.
+pub fn semantic_key_histories(ctx: &mut Ctx, monitor: &str, judged_ops: &[&str]) {
+    let (mut fam, routes) = semantic_material();
+    // every family in every shard (they are cheap); the starting point differs per shard
+    let rot = (ctx.shard as usize) % fam.len();
+    fam.rotate_left(rot);
     let mut calls = 0u64;
     let mut run = |ctx: &mut Ctx, route: usize, v: &Value| {
         let (r, d) = routes[route](v);
@@ -1005,4 +1014,83 @@ pub fn concurrent_replay(ctx: &mut Ctx, monitor: &str) {
     }
     ctx.cell("concurrent-replay");
     ctx.extra.insert("concurrent_replay".into(), json!({"calls_sampled": pool.len(), "stand_ins_dropped": not_reproduced_alone, "threads": threads, "passes": passes, "hammer_calls_per_thread": hammer_calls}));
+}
+
+/// Cold start: the very first evaluations of a process, made by 8 threads at once. Anything an
+/// implementation builds lazily on first use (a table behind a hand-made "initialised" flag, a
+/// lazily compiled pattern) is raced here and nowhere else - every other workload has long warmed
+/// it up on one thread before a second thread exists. The expectations are computed by the model
+/// before the library is touched; each thread walks the whole list from its own starting point.
+pub fn coldstart(ctx: &mut Ctx, monitor: &str, judged_ops: &[&str], threads: usize) {
+    let (fam, routes) = semantic_material();
+    let mut cases: Vec<(Value, Value)> = Vec::new();
+    for (_, members) in fam.iter() {
+        for v in members.iter().take(if members.len() > 7 { 8 } else { 3 }) {
+            for ro in routes.iter() {
+                let (r, d) = ro(v);
+                if judged_ops.is_empty() || judged_ops.contains(&crate::ctx::top_op(&r).as_str()) {
+                    if !r.to_string().contains("\"log\"") {
+                        cases.push((r, d));
+                    }
+                }
+            }
+        }
+    }
+    // a different order in every process; the operands whose conversion consults the far end of any
+    // character table (white space beyond U+2000) are spread densely over the whole list, so that
+    // every thread meets some of them within its first few dozen calls
+    for k in (1..cases.len()).rev() {
+        cases.swap(k, ctx.rng.below(k + 1));
+    }
+    let is_hot = |c: &(Value, Value)| {
+        let t = c.0.to_string() + &c.1.to_string();
+        t.contains('\u{feff}') || t.contains('\u{3000}') || t.contains('\u{2003}') || t.contains('\u{205f}') || t.contains('\u{2028}')
+    };
+    let (hot, rest): (Vec<_>, Vec<_>) = cases.into_iter().partition(is_hot);
+    let mut cases: Vec<(Value, Value)> = Vec::new();
+    let (mut hi, mut ri) = (0usize, 0usize);
+    while cases.len() < 600 && (ri < rest.len() || hi < hot.len()) {
+        if cases.len() % 3 == 0 && !hot.is_empty() {
+            cases.push(hot[hi % hot.len()].clone());
+            hi += 1;
+        } else if ri < rest.len() {
+            cases.push(rest[ri].clone());
+            ri += 1;
+        } else {
+            break;
+        }
+    }
+    let expected: Vec<(refsem::MOut, refsem::Trace)> = cases.iter().map(|(r, d)| refsem::model(r, d)).collect();
+    let cases = Arc::new(cases);
+    let barrier = Arc::new(Barrier::new(threads));
+    let mut hs = Vec::new();
+    for t in 0..threads {
+        let (cases, barrier) = (cases.clone(), barrier.clone());
+        hs.push(std::thread::spawn(move || {
+            observe::install_panic_hook();
+            let n = cases.len();
+            let start = t * n / threads.max(1);
+            let mut outs: Vec<(usize, Outcome)> = Vec::with_capacity(n);
+            barrier.wait();
+            for k in 0..n {
+                let i = (start + k) % n;
+                outs.push((i, observe::call(&cases[i].0, &cases[i].1)));
+            }
+            outs
+        }));
+    }
+    for (t, h) in hs.into_iter().enumerate() {
+        if let Ok(outs) = h.join() {
+            for (i, out) in outs {
+                ctx.evaluations += 1;
+                let obs = Obs { out, logs: vec![], errs: String::new() };
+                let before = ctx.violations.len();
+                ctx.judge(monitor, &cases[i].0, &cases[i].1, &obs, &expected[i].0, &expected[i].1);
+                if ctx.violations.len() > before {
+                    let _ = t;
+                }
+            }
+        }
+    }
+    ctx.cell("cold-start");
 }
